@@ -86,6 +86,94 @@ def item_grid(s, nmax, pretties=(False, True), kmax=3, full=True, inters=(False,
     s.hist['grid_cases_total'] = idx
 
 
+def idless_states():
+    """Running-order documents holding a story / item without its ID tag or a completely empty
+    <story/> / <item/> (states a message that lost an element leaves behind)."""
+    from ..build import E
+    out = []
+    for odd in (E('story', None, E('storySlug', 'no id here'), B.item('x1', 'x'), E('p', 'text of the id-less story')),
+                E('story')):
+        for pos in (0, 1, 3):
+            for timed in (True, False):
+                stories = [gen.simple_story(n, 2, inter=True, timed=timed) for n in ('A', 'B', 'C')]
+                stories.insert(pos, B.clone(odd))
+                out.append(B.ro_doc('RO', 1, stories, ed_start='2020-01-01T12:30:00'))
+    for odd in (E('item', None, E('itemSlug', 'no id here')), E('item')):
+        for pos in (0, 2):
+            st = gen.simple_story('A', 3, item_prefix='a', inter=True)
+            st.insert(1 + pos, B.clone(odd))
+            out.append(B.ro_doc('RO', 1, [gen.simple_story('Z', 2), st], ed_start='2020-01-01T12:30:00'))
+    return out
+
+
+def idless_cases(s):
+    """Running orders holding a story / item without its ID tag, or a completely empty
+    <story/> / <item/>, met by blank references and by multi-ID messages whose IDs lie on
+    both sides of it.  Judged: a blank reference touches nothing (C03), a raise leaves the
+    text unchanged (C05), no foreign exception (C12), every listed ID acted on (C06 via the relation
+    where the IDs are unique)."""
+    from ..build import BLANK, E
+    idx = 0
+    odd_stories = [E('story', None, E('storySlug', 'no id here'), B.item('x1', 'x')), E('story')]
+    odd_items = [E('item', None, E('itemSlug', 'no id here')), E('item')]
+    new_story = lambda i: gen.simple_story(i, 1)
+    new_item = lambda i: B.item(i, 'new ' + i)
+    for odd in odd_stories:
+        for pos in (0, 1, 2):
+            stories = [gen.simple_story(n, 2) for n in ('A', 'B', 'C')]
+            stories.insert(pos, B.clone(odd))
+            ro_txt = B.ro_doc('RO', 1, stories, ed_start='2020-01-01T12:30:00')
+            cases = []
+            for kind in ('roStoryDelete', 'EAStoryDelete'):
+                for ids in ([BLANK], ['A', 'C'], ['C', 'A'], ['A', 'gone'], ['gone', 'C'], [BLANK, 'B'], ['A', BLANK, 'C']):
+                    cases.append((kind, dict(ids=ids)))
+            for kind in ('roStoryReplace', 'EAStoryReplace'):
+                cases.append((kind, dict(target=BLANK, carried=[new_story('N1')])))
+                cases.append((kind, dict(target='C', carried=[new_story('N1')])))
+            cases.append(('roStoryMove', dict(ids=[BLANK], target='A')))
+            cases.append(('roStoryMove', dict(ids=['C'], target='A')))
+            cases.append(('EAStoryMove', dict(ids=['A', 'C'], target=BLANK)))
+            cases.append(('EAStoryMove', dict(ids=[BLANK], target='A')))
+            cases.append(('EAStorySwap', dict(ids=[BLANK, 'A'], target=BLANK)))
+            cases.append(('EAStorySwap', dict(ids=['A', 'C'], target=BLANK)))
+            cases.append(('roStorySend', dict(story_ref=BLANK, body=[E('p', 'sent')], fields=['BODY'])))
+            cases.append(('roStorySend', dict(story_ref='C', body=[E('p', 'sent')], fields=['BODY'])))
+            for kind in ('roStoryInsert', 'EAStoryInsert'):
+                cases.append((kind, dict(target=BLANK, carried=[new_story('N1')])))
+                cases.append((kind, dict(target='C', carried=[new_story('N1'), new_story('N2')])))
+            for kind, kw in cases:
+                idx += 1
+                if s.mine(idx):
+                    run_case(s, ro_txt, kind, kw, ctx={'idless': 'story'})
+    for odd in odd_items:
+        for pos in (0, 1, 3):
+            st = gen.simple_story('A', 3, item_prefix='a')
+            items = [c for c in st if c.tag == 'item']
+            st.insert(list(st).index(items[0]) + pos, B.clone(odd))
+            ro_txt = B.ro_doc('RO', 1, [gen.simple_story('Z', 2, item_prefix='a'), st], ed_start='2020-01-01T12:30:00')
+            cases = []
+            for kind in ('roItemDelete', 'EAItemDelete'):
+                for ids in ([BLANK], ['a0', 'a2'], ['a2', 'a0'], ['a0', 'gone'], ['gone', 'a2'], [BLANK, 'a1'], ['a0', BLANK, 'a2']):
+                    cases.append((kind, dict(story_ref='A', ids=ids)))
+            for kind in ('roItemReplace', 'EAItemReplace'):
+                cases.append((kind, dict(story_ref='A', target=BLANK, carried=[new_item('n1')])))
+                cases.append((kind, dict(story_ref='A', target='a2', carried=[new_item('n1')])))
+            for kind in ('roItemMoveMultiple', 'EAItemMove'):
+                cases.append((kind, dict(story_ref='A', ids=[BLANK], target='a0')))
+                cases.append((kind, dict(story_ref='A', ids=['a2'], target='a0')))
+                cases.append((kind, dict(story_ref='A', ids=['a0', 'a2'], target=BLANK)))
+            cases.append(('EAItemSwap', dict(story_ref='A', ids=[BLANK, 'a0'])))
+            cases.append(('EAItemSwap', dict(story_ref='A', ids=['a0', 'a2'])))
+            for kind in ('roItemInsert', 'EAItemInsert'):
+                cases.append((kind, dict(story_ref='A', target=BLANK, carried=[new_item('n1')])))
+                cases.append((kind, dict(story_ref='A', target='a2', carried=[new_item('n1')])))
+            for kind, kw in cases:
+                idx += 1
+                if s.mine(idx):
+                    run_case(s, ro_txt, kind, kw, ctx={'idless': 'item'})
+    s.hist['idless_cases_total'] = idx
+
+
 def many_unresolvable(s, counts=(11, 12, 13, 25, 60)):
     """One message naming many elements that cannot be found (or many duplicates) plus one
     that can: one report per element however many there are, and the resolvable one is applied."""
